@@ -72,6 +72,8 @@ func NewCommit(o *Object) (*Commit, error) {
 
 	buf := bytes.NewReader(o.Data)
 	scanner := bufio.NewScanner(buf)
+	// a message line may be longer than the default line limit of the scanner
+	scanner.Buffer(make([]byte, 0, 64*1024), len(o.Data)+1)
 	for scanner.Scan() {
 		text := scanner.Text()
 		splitText := strings.SplitN(text, " ", 2)
